@@ -26,6 +26,15 @@
 #include <glm/gtx/quaternion.hpp>
 #include <glm/gtx/common.hpp>
 #include <glm/gtx/dual_quaternion.hpp>
+#include <glm/gtx/rotate_vector.hpp>
+#include <glm/gtx/norm.hpp>
+#include <glm/gtx/projection.hpp>
+#include <glm/gtx/perpendicular.hpp>
+#include <glm/gtx/component_wise.hpp>
+#include <glm/gtx/normal.hpp>
+#include <glm/gtx/closest_point.hpp>
+#include <glm/gtx/transform.hpp>
+#include <glm/gtx/euler_angles.hpp>
 #include <glm/gtx/color_space.hpp>
 #include <glm/gtx/color_space_YCoCg.hpp>
 #include <cstring>
